@@ -37,8 +37,11 @@ static FILE *g_ev, *g_pk;
 static const char *g_phase = "start";
 static int g_sent, g_pkts, g_recons;
 
+static unsigned g_alarm_period = 120;
 static void on_alarm(int sig) {
     (void)sig;
+    if (vrt_alarm_should_wait(g_alarm_period, 6))
+        return; /* slow or starved, not stuck: keep waiting (bounded) */
     /* async-signal-unsafe stdio is acceptable here: the process is about to exit */
     if (g_ev) {
         fprintf(g_ev, "{\"ev\":\"Timeout\",\"phase\":\"%s\",\"sent\":%d,\"pkts\":%d,\"recons\":%d}\n", g_phase, g_sent, g_pkts, g_recons);
@@ -323,6 +326,7 @@ int main(int argc, char **argv) {
         if (vrt_trace_open(path, streams)) return 2;
     }
     signal(SIGALRM, on_alarm);
+    g_alarm_period = (unsigned)timeout_s;
     alarm((unsigned)timeout_s);
     vrt_tid(); /* the application thread is thread 0 */
     if (pt_pm) { vrt_perturb_target(pt_target); vrt_perturb(pt_seed, pt_pm, pt_us); }
